@@ -74,8 +74,12 @@ def valid_name(rng):
         elif k < 0.45:
             out += [""]
         out.append(seg)
-    if rng.random() < 0.15:
+    k = rng.random()
+    if k < 0.15:
         out = [".."] * rng.choice([1, 2]) + out       # rejected (relative) or absorbed (root form)
+    elif k < 0.3:                                     # descend, then climb past the start: only Clean sees the ".." prefix
+        d = rng.choice([["sub"], ["sub", "deep"], ["q"], ["sub", ".", "deep"], [" "]])
+        out = d + [".."] * (len([x for x in d if x != "."]) + rng.choice([1, 1, 2, 3])) + out
     return "/" + "/".join(out) + rng.choice(WS)
 
 
@@ -83,6 +87,8 @@ CORPUS_R = [   # (layout, site index, dot, name)  -- witnesses of the findings a
     ("mod", 0, True, "/ ../x"), ("nomod", 0, True, "/ ../x"), ("mod", 1, True, "/ ../x"), ("mod", 4, True, "/ ../../../../x"),
     ("mod", 0, False, "/ $B/out/secret"), ("mod", 6, False, "/\t$B/out/data.txt"), ("nested", 7, False, "/ $B/x"),
     ("mod", 6, True, "/"), ("nomod", 7, True, "/"), ("mod", 7, True, "/."), ("nomod", 7, True, "/deep/.."), ("mod", 6, False, "/"),
+    ("mod", 0, True, "/sub/../../x"), ("mod", 0, True, "/sub/deep/../../../x"), ("mod", 2, True, "/deep/../../../x"),
+    ("nomod", 2, True, "/q/../../x"), ("mod", 0, False, "/sub/../../x"), ("mod", 6, True, "/sub/.././../out/secret"),
     ("mod", 0, True, "/x"), ("mod", 2, False, "/sub/y"), ("mod", 0, False, "/a../x"), ("mod", 0, False, "/.../x"),
     ("mod", 0, True, "/../x"), ("mod", 0, False, "/../../x"), ("nomod", 0, False, "/x"), ("mod", 0, True, "/x "),
     ("mod", 0, True, "/sub/../x"), ("mod", 0, True, "/sub//./y"), ("nested", 7, False, "/y"), ("moddir", 6, False, "/x"),
@@ -93,7 +99,7 @@ CORPUS_R = [   # (layout, site index, dot, name)  -- witnesses of the findings a
 
 
 def gen_res_cases(rng, tier):
-    n = 700 if tier == "quick" else 9000
+    n = 550 if tier == "quick" else 9000
     specs = list(CORPUS_R)
     lay_names = list(LAYOUTS)
     for _ in range(n):
@@ -166,7 +172,7 @@ def gen_path_cases(rng, tier):
 
     def rs(maxlen=12):
         return "".join(rng.choice(alpha) for _ in range(rng.randrange(maxlen + 1)))
-    n = 1500 if tier == "quick" else 12000
+    n = 1000 if tier == "quick" else 12000
     for _ in range(n):
         fn = rng.choice(list(PFN))
         a, b = rs(), ""
@@ -273,7 +279,7 @@ def harness_sharded(vh, cases):
     return outs
 
 
-def coq_reports(run, name, header, records, expr, shard=800):
+def coq_reports(run, name, header, records, expr, shard=150):
     """evaluate `expr` (a report over `cases`) on chunks of records; returns {id: code}"""
     res = {}
     chunks = [records[i:i + shard] for i in range(0, len(records), shard)]
@@ -286,7 +292,7 @@ def coq_reports(run, name, header, records, expr, shard=800):
                 "Definition R := Eval vm_compute in %s." % expr, "Print R."]
         rc, so, se = coq_eval("%s_%d" % (name, i), "\n".join(body))
         return coq_report(so, "R"), se
-    with concurrent.futures.ThreadPoolExecutor(max_workers=8) as ex:
+    with concurrent.futures.ThreadPoolExecutor(max_workers=10) as ex:
         for rep, se in ex.map(do, enumerate(chunks)):
             if rep is None:
                 run.corr_breaks.append({"what": "model evaluation failed (Check/C16Check.v, %s)" % name, "log": se[-1500:]})
@@ -309,6 +315,7 @@ def show(o):
 def main(tier, seed, replay=None):
     run = Run(PROP, tier, seed)
     vh, proof = prepare(PROP_FILES, thorough=(tier == "thorough"))
+    log("c16: prepare done at %.1fs" % (time.time() - run.t0))
     open_sigs = {f["sig"] for f in run.opened}
     qcur = qcur_term(open_sigs)
     hang_cur = cbool("q_import_cycle_hangs" in open_sigs)
@@ -347,6 +354,7 @@ def main(tier, seed, replay=None):
             h2 = dict(c["h"], budget_ms=15000)
             o2, _, _ = run_harness(vh, "c16", [h2], timeout=60)
             gouts[c["id"]] = o2.get(c["id"], o)
+    log("c16: harness done at %.1fs" % (time.time() - run.t0))
     byid = {c["id"]: c for c in rcases + gcases}
     harness_bad = [c["id"] for c in rcases + gcases if (outs.get(c["id"]) or gouts.get(c["id"]) or {}).get("st") in (None, "harness-error")]
     if harness_bad:
@@ -356,6 +364,7 @@ def main(tier, seed, replay=None):
     rres = coq_reports(run, "c16r", "case16r", rrecs, "report_r (%s) cases" % qcur) if rrecs else {}
     grecs = [coq_graph_case(c, gouts[c["id"]]) for c in gcases if gouts.get(c["id"], {}).get("st") in ("ok", "err", "timeout", "panic")]
     gres = coq_reports(run, "c16g", "case16g", grecs, "report_g %s cases" % hang_cur) if grecs else {}
+    log("c16: coq r+g done at %.1fs" % (time.time() - run.t0))
     # --- GoPath stream
     pcases = [{"id": 200000 + i, "fn": fn, "a": bts(a), "b": bts(b)} for i, (fn, a, b) in enumerate(pspecs)]
     pouts, _, _ = run_harness(vh, "gopath", pcases, timeout=600) if pcases else ({}, 0, "")
@@ -371,13 +380,14 @@ def main(tier, seed, replay=None):
         elif c["fn"] == "hasprefix":
             r = [49] if r == [49] else [48]
         precs.append("{| p_id := %d; p_fn := %s; p_a := %s; p_b := %s; p_r := %s |}" % (c["id"], PFN[c["fn"]], zl(c["a"]), zl(c["b"]), zl(r)))
-    pres = coq_reports(run, "c16p", "case16p", precs, "report_p cases", shard=3000) if precs else {}
+    pres = coq_reports(run, "c16p", "case16p", precs, "report_p cases", shard=600) if precs else {}
     pby = {c["id"]: c for c in pcases}
     for cid, code in sorted(pres.items()):
         c = pby[cid]
         run.corr_breaks.append({"what": "Go %s differs from its model in Sys/GoPath.v" % c["fn"],
                                 "case": {"kind": "p", "fn": c["fn"], "a": bytes(c["a"]).decode(), "b": bytes(c["b"]).decode()},
                                 "observed": bytes(pouts[cid]["r"]).decode("utf-8", "backslashreplace")})
+    log("c16: gopath done at %.1fs" % (time.time() - run.t0))
     # --- verdicts
     hist = {"codes": {}, "outcome": {}, "form": {"dot": 0, "root": 0}, "layout": {}, "site": {}, "graph": {}}
     seen, dist = set(), 0
